@@ -228,7 +228,7 @@ class Clause:
 
 class LoopSpec:
     def __init__(self, k):
-        self.k = k; self.invariants = []; self.decreases = None; self.assigns = None; self.ghost_updates = []
+        self.k = k; self.invariants = []; self.decreases = None; self.assigns = None; self.ghost_updates = []; self.uses = []
 
 
 class FuncSpec:
@@ -248,6 +248,7 @@ class FuncSpec:
         self.returns_ref = None
         self.notes = []
         self.unroll = {}
+        self.uses = []
 
 
 class Lemma:
@@ -402,6 +403,14 @@ class SpecDB:
                         elif hw[0] == 'ensures': cb['ensures'].append(Clause('ensures', self.expand(parse_expr(hw[1])), hw[1], None, None, ln))
                         else: raise SpecError('bad callback clause %r' % part)
                     ctx.callbacks[m.group(1)] = cb
+                elif head == 'induction':
+                    m = re.match(r'^(\w+)\s*>=\s*(.*)$', rest)
+                    if not m: raise SpecError('induction VAR >= LOWER expected')
+                    ctx.options['induction'] = (m.group(1), self.expand(parse_expr(m.group(2))))
+                elif head == 'use':
+                    c = self.expand(parse_expr(rest))
+                    if c.k != 'call': raise SpecError('use LEMMA(args) expected')
+                    (loop.uses if loop is not None else ctx.uses).append(c)
                 elif head == 'note':
                     ctx.notes.append(rest)
                 else:
